@@ -615,6 +615,13 @@ def run(chk, P):
     chk.floor('R02.10', 12)
     r02_11(chk, P)
     chk.floor('R02.11', 8)
+    chk.rule('R02.12', 'after any rejection the objects can still be cleared: what a clear function will walk is initialised -- an owning '
+             'pointer array is calloc\'ed, grown by realloc, or malloc\'ed only while its count is 0 or right before a fill loop that '
+             'cannot be left early (same obligations as R13.14).  A header that is refused half-way through its list leaves the '
+             'rest of the list to vorbis_comment_clear / vorbis_info_clear')
+    from rules import c13
+    c13.r13_14(common.Proxy(chk, 'R02.12'), P, rule='R02.12')
+    chk.floor('R02.12', 7)
     chk.floor('R02.9', 3)
     D = k4dec.decode_driver(P)
     r02_1(chk, P, D)
